@@ -1,6 +1,9 @@
-(* C07 — property theorems only.  Proofs are in C07/Proofs.v (and C07/Digits.v). *)
+(* C07 — property theorems only.  Proofs are in C07/Proofs.v, C07/Digits.v, C07/ReadBack.v, C07/LiteralProofs.v, C07/LexLink.v;
+   models in C07/Model.v (printing), C07/Reader.v (reading the printed text back), C07/Literal.v (reading literals and typed input
+   texts; the value a numeral denotes; the JSON number grammar). *)
 From Coq Require Import String ZArith NArith Bool List Ascii.
-From DV Require Import Base.Dec Base.DecRound C07.Model C07.Proofs C07.Reader C07.ReadBack.
+From DV Require Import Base.Dec Base.DecRound C07.Model C07.Proofs C07.Reader C07.ReadBack C07.Literal C07.LiteralProofs C07.LexLink.
+From DV Require Import C02.Exact.
 Import ListNotations.
 Open Scope Z_scope.
 
@@ -19,20 +22,150 @@ Proof. exact print_total. Qed.
 Theorem C07_print_render : forall d : dec, print d = Some (sign_of d ++ render_unsigned (coef d) (expo d)).
 Proof. exact print_render. Qed.
 
-(* the datum built from the token Numeric(ip, fp) / an xsd:decimal text is exactly the number the literal denotes
-   (the subsequent rounding to 34 digits is the identity for up to 34 significant digits: C02_round_exact) *)
-Theorem C07_literal_exact : forall ip fp, all_digits ip = true -> all_digits fp = true -> ip <> [] -> fp <> [] ->
-  denotes (ip ++ "."%char :: fp) = Some (numeric_literal ip fp).
-Proof. exact literal_exact. Qed.
+(* JSON: the rendering (jsonify is the same scientific_to_plain (dec_to_string d) as Display) of EVERY number is a JSON number by
+   the grammar of RFC 8259 section 6 (json_number: an inductive grammar of its own, C07/Literal.v) and denotes exactly the value *)
+Theorem C07_json_number_valid : forall d : dec, exists s p,
+  print d = Some s /\ json_number s /\ denotes s = Some p /\ neg p = neg d /\ veq p d.
+Proof. exact json_number_valid. Qed.
 
-Theorem C07_integer_literal_exact : forall ip, all_digits ip = true -> ip <> [] ->
-  denotes ip = Some (mkdec false (digits_val ip) 0).
-Proof. exact integer_literal_exact. Qed.
+(* the grammar rejects what the pinned commit printed (0000, 0.000000-15) and other non-numbers *)
+Example C07_json_grammar_examples :
+  ~ json_number (rd "0000") /\ ~ json_number (rd "0.000000-15") /\ ~ json_number (rd ".5") /\ ~ json_number (rd "5.") /\
+  ~ json_number (rd "-") /\ ~ json_number (rd "+1") /\ ~ json_number (rd "1e") /\ ~ json_number (rd "01") /\
+  json_number (rd "-0.00000015") /\ json_number (rd "0") /\ json_number (rd "1E+3").
+Proof. exact json_number_rejects. Qed.
 
-(* READ-BACK.  from_plain (C07/Reader.v) models FeelNumber::from_str = decQuadFromString on plain numerals: the datum the
-   text denotes (all digits as coefficient, minus the number of fraction digits as exponent), rounded once to decimal128
-   (round34: 34 digits, half-even; None = not finite -> Err). *)
-Theorem C07_reader_is_denotes_then_round : forall s,
+(* ---------------------------------------------------------------- LITERALS AND TYPED INPUT TEXTS
+   numeral n = (sign, integer digits, fraction digits, exponent part).  The value it DENOTES is defined by positional weights
+   (weigh: every digit times 10^position), independently of the reader:  |value| = text_num n / 10^(text_scale n),
+   denoted n = that value as an exact datum.  sig_digits n = the digits of the mantissa from its first non-zero digit on.
+   The reader (read_numeral: decQuadFromString + finite test) takes ALL digits as the coefficient and rounds ONCE: *)
+Theorem C07_reader_takes_the_denoted_value : forall n,
+  read_numeral n = round34 (n_neg n) (text_num n) (- text_scale n).
+Proof. exact read_numeral_round. Qed.
+
+(* the lexer (coq/C06/Lexer.v `numeric`): a text that begins with a digit gives the token Numeric(before, after); its digits are the
+   characters of the source text, in order, the longest run of digits and the longest run behind a point followed by a digit *)
+Theorem C07_literal_lexer_token : forall c r, NM.is_digit c = true ->
+  exists b a rest, Lx.numeric (c :: r) = (Lx.LNum b a, rest) /\ b <> [] /\
+    forallb NM.is_digit b = true /\ forallb NM.is_digit a = true /\
+    c :: r = b ++ (match a with [] => [] | _ => 46%N :: a end) ++ rest /\
+    match rest with x :: _ => NM.is_digit x = false | [] => True end.
+Proof. exact numeric_token. Qed.
+
+(* FEEL LITERAL, at most 34 significant digits (leading zeros not counted) and at most 6176 fraction digits: the evaluator's number
+   (literal_value: the text before.after through from_str) is the datum `all digits, minus the number of fraction digits` —
+   EXACTLY the value the text denotes; nothing is rounded, nothing normalised (0.10 stays 10E-2) *)
+Theorem C07_literal_exact_upto_34 : forall b a, all_digits b = true -> all_digits a = true -> b <> [] ->
+  (sig_digits (literal_numeral b a) <= 34)%nat -> len a <= 6176 ->
+  literal_value b a = Some (denoted (literal_numeral b a)) /\ in_format (denoted (literal_numeral b a)) = true.
+Proof. exact literal_exact_upto_34. Qed.
+
+(* FEEL LITERAL, any number of digits: the evaluator's number is THE correctly rounded decimal128 value of the denoted value
+   (C02/Exact.v correctly_rounded: the quantum fixed by the exact value, nearest, ties to even, subnormal grid, clamping; unique by
+   C02_correctly_rounded_unique), and the literal is refused (None: the value null) exactly when the denoted value reaches the
+   overflow threshold (10^34 - 1/2) * 10^6111 *)
+Theorem C07_literal_rounded_beyond_34 : forall b a, all_digits b = true -> all_digits a = true -> b <> [] ->
+  correctly_rounded (Quot (text_num (literal_numeral b a)) 1 (- text_scale (literal_numeral b a))) false (literal_value b a).
+Proof. exact literal_rounded_beyond_34. Qed.
+
+(* both, for the token the lexer produces (code points of the source text) *)
+Theorem C07_literal_token_value : forall b a, b <> [] -> forallb NM.is_digit b = true -> forallb NM.is_digit a = true ->
+  let n := literal_numeral (text_of_codes b) (text_of_codes a) in
+  literal_value (text_of_codes b) (text_of_codes a) = read_numeral n /\
+  correctly_rounded (Quot (text_num n) 1 (- text_scale n)) false (read_numeral n) /\
+  ((sig_digits n <= 34)%nat -> len (text_of_codes a) <= 6176 -> read_numeral n = Some (denoted n) /\ in_format (denoted n) = true).
+Proof. exact token_value. Qed.
+
+(* the rounding in integers, about the result d: d is c units of the quantum 10^e1 fixed by the text (34 digits kept, not below the
+   subnormal grid), c * 10^e1 lies within half a quantum of the denoted value, c is even on an exact tie, c is the written
+   coefficient when no digit is dropped *)
+Theorem C07_numeral_nearest_even : forall n d, (0 < text_num n)%N -> read_numeral n = Some d ->
+  let e := - text_scale n in let e1 := target_exp (text_num n) e in let b := Z.min e ETINY in
+  neg d = n_neg n /\ ETINY <= expo d <= ETOP /\
+  exists c : N,
+    Z.of_N (coef d) * 10 ^ (expo d - b) = Z.of_N c * 10 ^ (e1 - b) /\
+    2 * Z.abs (Z.of_N c * 10 ^ (e1 - b) - Z.of_N (text_num n) * 10 ^ (e - b)) <= 10 ^ (e1 - b) /\
+    (2 * Z.abs (Z.of_N c * 10 ^ (e1 - b) - Z.of_N (text_num n) * 10 ^ (e - b)) = 10 ^ (e1 - b) -> N.even c = true) /\
+    (e1 = e -> c = text_num n).
+Proof. exact numeral_nearest_even. Qed.
+
+(* TYPED INPUT DATA and from_str in general.  The grammar: every text spelled  sign? (digits [. digits*] | . digits+) ([eE] sign? digits+)?
+   (the lexical forms of xsd:integer, xsd:decimal and the finite xsd:double values; also the text `12.` a FEEL literal 12 becomes) is
+   parsed as the numeral it spells *)
+Theorem C07_text_grammar : forall sign ip dot fp x,
+  sign_ok sign -> all_digits ip = true -> all_digits fp = true -> (ip <> [] \/ fp <> []) -> (dot = false -> fp = []) -> exp_ok x ->
+  parse_numeral (spelled sign ip dot fp x) = Some (mknum (is_minus sign) ip fp (exp_val x)).
+Proof. exact parse_spelled. Qed.
+
+(* at most 34 significant digits and the exponent of the written datum within -6176..6111: exactly the written datum *)
+Theorem C07_text_exact_upto_34 : forall s n, parse_numeral s = Some n -> (sig_digits n <= 34)%nat -> ETINY <= - text_scale n <= ETOP ->
+  from_text s = Some (denoted n) /\ in_format (denoted n) = true.
+Proof. exact text_exact_upto_34. Qed.
+
+(* ... an exponent above 6111 whose value still fits (1E6144): same value, clamped representation *)
+Theorem C07_text_exact_wide : forall s n, parse_numeral s = Some n -> (sig_digits n <= 34)%nat -> ETINY <= - text_scale n ->
+  (text_num n = 0%N \/ - text_scale n + Z.of_N (ndigits (text_num n)) - 1 <= EMAX) ->
+  exists d, from_text s = Some d /\ veq d (denoted n) /\ neg d = n_neg n /\ in_format d = true.
+Proof. exact text_exact_wide. Qed.
+
+(* any numeral: correctly rounded; refused exactly on overflow *)
+Theorem C07_text_rounded_beyond_34 : forall s n, parse_numeral s = Some n ->
+  correctly_rounded (Quot (text_num n) 1 (- text_scale n)) (n_neg n) (from_text s).
+Proof. exact text_rounded_beyond_34. Qed.
+
+Example C07_literal_examples :
+  Lx.lex [] (codes ".5") = Some [Lx.LNum (codes "0") (codes "5")] /\
+  literal_value (rd "0") (rd "5") = Some (mkdec false 5 (-1)) /\
+  Lx.lex [] (codes "0.10") = Some [Lx.LNum (codes "0") (codes "10")] /\
+  sig_digits (literal_numeral (rd "0") (rd "10")) = 2%nat /\
+  literal_value (rd "0") (rd "10") = Some (mkdec false 10 (-2)) /\
+  Lx.lex [] (codes "12") = Some [Lx.LNum (codes "12") []] /\ literal_text (rd "12") [] = rd "12." /\
+  literal_value (rd "12") [] = Some (mkdec false 12 0) /\
+  sig_digits (literal_numeral (rd "1234567890123456789012345678901234") []) = 34%nat /\
+  literal_value (rd "1234567890123456789012345678901234") [] = Some (mkdec false num34 0) /\
+  literal_value (rd "123456789012345678901234567890") (rd "1234") = Some (mkdec false num34 (-4)) /\
+  sig_digits (literal_numeral (rd "12345678901234567890123456789012345") []) = 35%nat /\
+  literal_value (rd "12345678901234567890123456789012345") [] = Some (mkdec false num34 1) /\
+  literal_value (rd "12345678901234567890123456789012355") [] = Some (mkdec false (num34 + 2) 1) /\
+  literal_value (rd "1234567890123456789012345678901234") (rd "51") = Some (mkdec false (num34 + 1) 0) /\
+  literal_value (rd "1234567890123456789012345678901234") (rd "49") = Some (mkdec false num34 0) /\
+  literal_value (rd "999999999999999999999999999999999999") [] = Some (mkdec false (10 ^ 33) 3) /\
+  sig_digits (literal_numeral (rd "0") (zeros 40 ++ rd "1234567890123456789012345678901234")) = 34%nat /\
+  literal_value (rd "0") (zeros 40 ++ rd "1234567890123456789012345678901234") = Some (mkdec false num34 (-74)).
+Proof. exact literal_examples. Qed.
+
+(* the bound `at most 6176 fraction digits` of C07_literal_exact_upto_34 is needed (decimal128 has no quantum below 1E-6176): a literal
+   with ONE significant digit behind 6176 zeros is read as 0, with a 6 there as 1E-6176 — not the denoted value *)
+Example C07_literal_underflow_refuted :
+  let a1 := zeros (N.to_nat 6176) ++ rd "1" in let a6 := zeros (N.to_nat 6176) ++ rd "6" in
+  sig_digits (literal_numeral (rd "0") a1) = 1%nat /\ len a1 = 6177 /\
+  denoted (literal_numeral (rd "0") a1) = mkdec false 1 (-6177) /\
+  literal_value (rd "0") a1 = Some (mkdec false 0 (-6176)) /\
+  veqb (mkdec false 0 (-6176)) (mkdec false 1 (-6177)) = false /\
+  denoted (literal_numeral (rd "0") a6) = mkdec false 6 (-6177) /\
+  literal_value (rd "0") a6 = Some (mkdec false 1 (-6176)) /\
+  veqb (mkdec false 1 (-6176)) (mkdec false 6 (-6177)) = false /\
+  literal_value (rd "0") (zeros (N.to_nat 6175) ++ rd "1") = Some (mkdec false 1 (-6176)).
+Proof. exact literal_underflow. Qed.
+
+Example C07_text_examples :
+  from_text (rd "-12.50") = Some (mkdec true 1250 (-2)) /\ from_text (rd "+7") = Some (mkdec false 7 0) /\
+  from_text (rd "-.5") = Some (mkdec true 5 (-1)) /\ from_text (rd "5.") = Some (mkdec false 5 0) /\
+  from_text (rd "1.5E3") = Some (mkdec false 15 2) /\ from_text (rd "-1.5e-3") = Some (mkdec true 15 (-4)) /\
+  from_text (rd "0E3") = Some (mkdec false 0 3) /\ from_text (rd "1E6144") = Some (mkdec false (10 ^ 33) 6111) /\
+  from_text (rd "1E6145") = None /\ from_text (rd "12345678901234567890123456789012345E-1") = Some (mkdec false num34 0) /\
+  from_text (rd "") = None /\ from_text (rd ".") = None /\ from_text (rd "1.2.3") = None /\ from_text (rd "1E") = None /\
+  from_text (rd "INF") = None /\ from_text (rd "NaN") = None /\ from_text (rd "--1") = None.
+Proof. exact text_examples. Qed.
+
+(* ---------------------------------------------------------------- READ-BACK.
+   from_plain (C07/Reader.v) models FeelNumber::from_str on the texts Display produces; it is the text reader above on them *)
+Theorem C07_reader_is_text_reader : forall s, is_plain s = true -> from_plain s = from_text s.
+Proof. exact from_plain_is_from_text. Qed.
+
+(* definitional (unfolding of from_plain): the datum the text denotes, rounded once *)
+Theorem C07_reader_is_denotes_then_round_def : forall s,
   from_plain s = match denotes s with Some p => round34 (neg p) (coef p) (expo p) | None => None end.
 Proof. exact from_plain_denotes. Qed.
 
@@ -96,9 +229,23 @@ Proof. exact print_nontrivial. Qed.
 Print Assumptions C07_plain_exact.
 Print Assumptions C07_no_underflow.
 Print Assumptions C07_print_render.
-Print Assumptions C07_literal_exact.
-Print Assumptions C07_integer_literal_exact.
-Print Assumptions C07_reader_is_denotes_then_round.
+Print Assumptions C07_json_number_valid.
+Print Assumptions C07_json_grammar_examples.
+Print Assumptions C07_reader_takes_the_denoted_value.
+Print Assumptions C07_literal_lexer_token.
+Print Assumptions C07_literal_exact_upto_34.
+Print Assumptions C07_literal_rounded_beyond_34.
+Print Assumptions C07_literal_token_value.
+Print Assumptions C07_numeral_nearest_even.
+Print Assumptions C07_text_grammar.
+Print Assumptions C07_text_exact_upto_34.
+Print Assumptions C07_text_exact_wide.
+Print Assumptions C07_text_rounded_beyond_34.
+Print Assumptions C07_literal_examples.
+Print Assumptions C07_literal_underflow_refuted.
+Print Assumptions C07_text_examples.
+Print Assumptions C07_reader_is_text_reader.
+Print Assumptions C07_reader_is_denotes_then_round_def.
 Print Assumptions C07_read_back.
 Print Assumptions C07_read_back_datum.
 Print Assumptions C07_read_back_short.
